@@ -57,6 +57,7 @@ type loopInfo struct {
 	backs   []*ssa.BasicBlock // sources of back edges
 	mods    map[string]bool   // heap arrays written in the loop (collected in pass 1)
 	modAll  bool
+	auto    []autoInv
 }
 
 type FnEnc struct {
